@@ -324,6 +324,12 @@ func c02Run(c *vcore.Ctx) *vcore.Violation {
 		}
 		p := f.genPath(c, baseOf(v))
 		P := "s:" + p
+		if len(p) >= 2 && src.Bool(1, 4, "crosses_page") {
+			// where the string lies in the program's memory is the program's choice: here its first k bytes
+			// end one page and the rest begins the next
+			P = fmt.Sprintf("c:%d:%s", 1+src.Int(len(p)-1, "page_split"), p)
+			c.Event("path_crosses_page")
+		}
 		one := func(class string, strict bool, useDfd bool, dfd uint64, follow bool) {
 			s.expect = append(s.expect, c02expect{class: class, strict: strict, dfd: dfd, useDfd: useDfd, path: p, follow: follow, what: kind})
 		}
